@@ -222,6 +222,25 @@ def run(ctx):
                 evs += iso_events(g, n, rng, grid)
             if n >= 2 and (not ctx.quick or gi % 2 == 0):
                 evs += orbit_events(g, n, rng, ctx.quick)
+            if 3 <= n <= 5 and gi % 2 == 1:
+                # remove_iso on a list made of this graph, relabelled copies of it and of another graph, repeats included
+                other = rng.choice(graphs)
+                ins = []
+                for src in (g, other, g, other, g):
+                    perm = list(range(n))
+                    if rng.random() < 0.7:
+                        rng.shuffle(perm)
+                    h = nx.Graph()
+                    h.add_nodes_from(range(n))
+                    h.add_edges_from((perm[a], perm[b]) for a, b in src.edges())
+                    ins.append(h)
+                rng.shuffle(ins)
+                try:
+                    res = rm.remove_iso([h.copy() for h in ins])
+                    out = {"err": "", "graphs": [graph_out(h, n) for h in res]}
+                except Exception as ex:
+                    out = {"err": type(ex).__name__, "graphs": []}
+                evs.append({"fn": "remove_iso", "ins": [cz.graph_edges1(h) for h in ins], "out": out})
             tid += 1
             traces.append({"tid": tid, "meta": {"n": n, "base": cz.graph_edges1(g)}, "n": n,
                            "base": cz.graph_edges1(g), "need_orbit": True, "events": evs})
